@@ -304,10 +304,12 @@ pub open spec fn elem_text(v: V, cast: bool) -> Option<Seq<char>> {
 }
 
 // some element of the array (strings always, scalars under the cast) satisfies the search
+pub open spec fn elem_hit(kind: Search, e: V, cast: bool) -> bool {
+    elem_text(e, cast) is Some && search_rel(kind, elem_text(e, cast)->Some_0)
+}
 #[verifier::opaque]
 pub open spec fn search_array_rel(kind: Search, a: ArrM, cast: bool) -> bool {
-    exists|k: int| 0 <= k < arr_elems(a).len()
-        && (#[trigger] elem_text(arr_elems(a)[k], cast)) is Some && search_rel(kind, elem_text(arr_elems(a)[k], cast)->Some_0)
+    exists|k: int| 0 <= k < arr_elems(a).len() && #[trigger] elem_hit(kind, arr_elems(a)[k], cast)
 }
 
 pub open spec fn sem_search(kind: Search, f: Seq<char>, cast: bool, d: DocM) -> SolverResult {
@@ -331,6 +333,7 @@ pub open spec fn operand_key(e: Expression) -> Option<Seq<char>> {
 // asks(e, ids, k): evaluating e may call find(k) on the document it is evaluated against
 pub open spec fn asks(e: Expression, ids: Ids, k: Seq<char>) -> bool
     decreases lvl(e), e,
+    via asks_decreases
 {
     match e {
         Expression::BooleanGroup(_, g) => exists|i: int| 0 <= i < g.len() && asks(#[trigger] g[i], ids, k),
@@ -347,6 +350,11 @@ pub open spec fn asks(e: Expression, ids: Ids, k: Seq<char>) -> bool
         Expression::Cast(f, _) => f@ == k,
         _ => false,
     }
+}
+
+#[via_fn]
+proof fn asks_decreases(e: Expression, ids: Ids, k: Seq<char>) {
+    reveal_with_fuel(has_ident, 3);
 }
 
 pub open spec fn permitted(e: Expression, ids: Ids, d: DocM) -> bool {
@@ -442,11 +450,6 @@ pub open spec fn sems(g: Vec<Expression>, ids: Ids, d: DocM, parent: Expression)
     Seq::new(g.len() as nat, |i: int| if 0 <= i < g.len() { sem3(g[i], ids, d) } else { SolverResult::Missing })
 }
 
-// the objects among the elements of an array, in order
-pub open spec fn obj_elems(a: ArrM) -> Seq<ObjM> {
-    arr_elems(a).filter(|v: V| v is Object).map_values(|v: V| v->Object_0)
-}
-
 // what all()/of() quantify over: an identifier is looked through; a group contributes its elements
 pub open spec fn match_target(x: Expression, ids: Ids) -> Expression {
     match x {
@@ -505,26 +508,39 @@ proof fn sem_nested_array_decreases(x: Expression, ids: Ids, a: ArrM) {
 }
 
 // a nested mapping over an array of objects: "some element satisfies it" (C10)
-// results of a block on each object element of an array
-pub open spec fn obj_results(x: Expression, ids: Ids, objs: Seq<ObjM>) -> Seq<SolverResult>
+// result of a block on one array element: elements that are not objects are skipped (Missing is neutral for or3)
+pub open spec fn elem_result(x: Expression, ids: Ids, v: V) -> SolverResult
     decreases lvl(x), x, 2int,
 {
-    Seq::new(objs.len(), |k: int| sem3(x, ids, DocM::Obj(objs[k])))
+    match v { V::Object(o) => sem3(x, ids, DocM::Obj(o)), _ => SolverResult::Missing }
+}
+
+pub open spec fn obj_results(x: Expression, ids: Ids, elems: Seq<V>) -> Seq<SolverResult>
+    decreases lvl(x), x, 3int,
+{
+    Seq::new(elems.len(), |k: int| elem_result(x, ids, elems[k]))
+}
+
+// the blocks of an all(..) over nested blocks: block j holds for some element (or3 over the elements)
+pub open spec fn block_results(g: Vec<Expression>, ids: Ids, elems: Seq<V>, parent: Expression) -> Seq<SolverResult>
+    decreases lvl(parent), parent, 3int,
+    when forall|j: int| 0 <= j < g.len() ==> decreases_to!(parent => #[trigger] g[j]) && lvl(g[j]) <= lvl(parent)
+{
+    Seq::new(g.len() as nat, |j: int| if 0 <= j < g.len() { or3(obj_results(g[j], ids, elems)) } else { SolverResult::Missing })
 }
 
 pub open spec fn sem_nested_array(x: Expression, ids: Ids, a: ArrM) -> SolverResult
-    decreases lvl(x), x, 3int,
+    decreases lvl(x), x, 4int,
     via sem_nested_array_decreases
 {
-    let objs = obj_elems(a);
+    let elems = arr_elems(a);
     match x {
         Expression::Match(Match::All, inner) => match *inner {
             // all(..) over several nested blocks on one array: each block must hold for some element
-            Expression::BooleanGroup(BoolSym::Or, g) => and3(Seq::new(g.len() as nat, |j: int|
-                or3(Seq::new(objs.len(), |k: int| if 0 <= j < g.len() { sem3(g[j], ids, DocM::Obj(objs[k])) } else { SolverResult::Missing })))),
+            Expression::BooleanGroup(BoolSym::Or, g) => and3(block_results(g, ids, elems, *inner)),
             Expression::Matrix(cols, rows) => sem_nested_array_matrix(cols, rows, ids, a),
-            _ => b3(some_true(obj_results(x, ids, objs))),
+            _ => b3(some_true(obj_results(x, ids, elems))),
         },
-        _ => b3(some_true(obj_results(x, ids, objs))),
+        _ => b3(some_true(obj_results(x, ids, elems))),
     }
 }
